@@ -23,13 +23,13 @@ ASSUMPTIONS = ['numpy functions outside the mutator table neither mutate '
 
 
 def check(ctx):
-    dataset.check_ds_sign(ctx)
-    dataset.check_quad(ctx)
-    dataset.check_ds_shape(ctx)
-    dataset.check_ds_left(ctx)
-    dataset.check_ds_pure(ctx)
-    dataset.check_ds_copy(ctx)
-    dataset.check_op_direct(ctx)
+    ctx.run(dataset.check_ds_sign)
+    ctx.run(dataset.check_quad)
+    ctx.run(dataset.check_ds_shape)
+    ctx.run(dataset.check_ds_left)
+    ctx.run(dataset.check_ds_pure)
+    ctx.run(dataset.check_ds_copy)
+    ctx.run(dataset.check_op_direct)
 
 
 def variants(program):
